@@ -60,6 +60,7 @@ ASSUMPTIONS = [
     "decoded arrays are read-only views (np.frombuffer); writeability is not part of the property",
     "auto-encoding/suffix clauses are demanded for the writer the property names (str<->json, bytes<->msgpack-ext, suffix writer<->suffix reader); json-ext text through the str->json default is modelled and checked as a rejecting cell, not demanded",
     "pickle and the non-serialisation Molecule formats (xyz, psi4, numpy) are outside this property",
+    "Molecule instances are the validated ones (validated=True: any validating construction, geometry_noise/orient options, scramble/align/from_data results); a molecule built with validate=False and never validated is re-validated, hence normalised, by the parser by design and is not generated",
 ]
 RULE = (
     "arrays: dtype in {f2,f4,f8,>f4,>f8,i1..i8,>i2..>i8,u1..u8,bool,c8,c16,>c16,U1-4,>U2,S1-4} x rank 1-4 x extents 0-5 x layout "
@@ -67,7 +68,11 @@ RULE = (
     "scalars drawn from the msgpack width boundaries (ints around 2^7,2^8,2^15,2^16,2^31,2^32,2^63,2^64; str/bin lengths 0,31,32,255,256,65535,65536; "
     "containers of 15/16/300 (5000 in thorough) entries); corrupted envelopes for the error branches; model instances of Molecule, AtomicInput, AtomicResult "
     "(energy/gradient/hessian/properties drivers, properties arrays, wavefunction), OptimizationInput/Result, BasisSet, AlignmentMill x 4 encodings x "
-    "include/exclude/exclude_none options; files by suffix; the full auto/suffix/reader tables. A case is distinct by (block, dtype, shape, layout, depth, "
+    "include/exclude/exclude_none options; a second family of the molecule-carrying models (Molecule, AtomicInput, AtomicResult, OptimizationInput/Result "
+    "with distinct molecules in initial/final/trajectory slots) whose molecules keep MORE digits than the default construction-time clean-up leaves "
+    "(geometry beyond 8 decimals: constructor option geometry_noise in 9..16 with and without orient=True, Molecule.scramble() with drawn "
+    "shift/rotation/permutation/mirror, Molecule.align() onto such a reference; coordinates of magnitude 1e-13..4e-7, molecular charges with 5-12 decimals, "
+    "explicit full-precision masses), compared exactly field by field and payload by payload; files by suffix; the full auto/suffix/reader tables. A case is distinct by (block, dtype, shape, layout, depth, "
     "encoding) or (model, encoding, options, field-shape signature) and non-trivial when it carries an array that is not a C-contiguous little-endian "
     "float64 vector, a boundary-width scalar, an error branch, or a model instance with at least one multi-dimensional array field."
 )
@@ -506,7 +511,9 @@ def model_same(a, b, path="$"):
             return f"{path}: shape {a.shape} -> {b.shape}"
         if a.dtype.kind in "fc":
             if not np.array_equal(a, b, equal_nan=True):
-                return f"{path}: values differ"
+                with np.errstate(all="ignore"):
+                    dmax = np.nanmax(np.abs(a - b)) if a.size else 0.0
+                return f"{path}: values differ (max abs difference {dmax:.3e})"
         elif not np.array_equal(a, b):
             return f"{path}: values differ"
         return None
@@ -921,13 +928,24 @@ def rand_json_extras(rng, depth=2):
 SYMS = ["H", "He", "Li", "C", "N", "O", "F", "Ne", "Na", "Cl", "Ar", "Fe", "Zn", "Br", "Xe", "U"]
 
 
-def rand_molecule(rng, nmax=6):
+def rand_molecule(rng, nmax=6, ctor=None, hp=False):
+    """a valid Molecule. `ctor`: extra constructor options (geometry_noise, orient). `hp`: also draw the values the default
+    clean-up would not leave alone (coordinates of tiny magnitude, many-digit fractional charge, more often explicit masses);
+    with hp=False the draws from `rng` are exactly those of the original generator."""
     from qcelemental.models import Molecule
 
+    ctor = dict(ctor or {})
     n = rng.randint(1, nmax)
     syms = [rng.choice(SYMS) for _ in range(n)]
     geom = [[3.0 * i + rng.uniform(-0.5, 0.5), rng.uniform(-2, 2), rng.uniform(-2, 2)] for i in range(n)]
+    if hp:
+        for r in geom:
+            for j in (1, 2):
+                if rng.random() < 0.2:  # below 5e-9 / below the 8-decimal zero flip, above the 13-decimal one
+                    r[j] = rng.choice([-1, 1]) * rng.choice([rng.uniform(2e-10, 5e-9), rng.uniform(5e-9, 4e-7), rng.uniform(1e-13, 1e-10)])
     kw = {"symbols": syms, "geometry": geom if rng.random() < 0.5 else [x for r in geom for x in r]}
+    if hp and rng.random() < 0.3:
+        kw["molecular_charge"] = round(rng.uniform(-1, 1), rng.choice([5, 7, 10, 12]))
     if rng.random() < 0.3:
         kw["name"] = rng.choice(["w", "mol é", ""])
     if rng.random() < 0.3:
@@ -944,7 +962,7 @@ def rand_molecule(rng, nmax=6):
         kw["connectivity"] = [[min(i, j), max(i, j), rng.choice([1.0, 2.0, 1.5])]]
     if rng.random() < 0.25:
         kw["atom_labels"] = [rng.choice(["", "a", "1b"]) for _ in range(n)]
-    if rng.random() < 0.25:
+    if rng.random() < (0.5 if hp else 0.25):
         kw["masses"] = [rng.uniform(1, 200) for _ in range(n)]
     if rng.random() < 0.3:
         kw["extras"] = rand_json_extras(rng)
@@ -954,9 +972,79 @@ def rand_molecule(rng, nmax=6):
     with warnings.catch_warnings():
         warnings.simplefilter("ignore")
         try:
-            return Molecule(**kw)
+            return Molecule(**kw, **ctor)
         except Exception:  # chg/mult of a random composition may be unsatisfiable with defaults: fall back
-            return Molecule(symbols=["He"] * n, geometry=kw["geometry"])
+            return Molecule(symbols=["He"] * n, geometry=kw["geometry"], **ctor)
+
+
+# ---- molecules whose stored values are NOT fixed points of the default construction-time clean-up --------------------
+# Every validating construction rounds the geometry to GEOMETRY_NOISE (8) decimals, so all molecules of rand_molecule
+# hold geometries the clean-up maps to themselves: a parse that re-applies the clean-up (or any other normalisation) to a
+# payload already marked validated is invisible on them. The library itself produces valid molecules that keep more
+# digits: the public `geometry_noise` constructor option, Molecule.scramble() and Molecule.align() (both build their
+# result with geometry_noise=13), with or without orient=True.
+
+HP_NOISE = [9, 10, 11, 12, 13, 13, 14, 15, 16]
+HP_ROUTES = ["noise", "noise", "orient", "scramble", "scramble", "align"]
+
+
+def _rand_rotation(rng):
+    """proper rotation matrix from a uniformly drawn unit quaternion (list of lists: scramble(do_rotate=...) wants that)"""
+    while True:
+        q = [rng.gauss(0, 1) for _ in range(4)]
+        nn = sum(x * x for x in q) ** 0.5
+        if nn > 1e-3:
+            break
+    w, x, y, z = (c / nn for c in q)
+    return [[1 - 2 * (y * y + z * z), 2 * (x * y - z * w), 2 * (x * z + y * w)],
+            [2 * (x * y + z * w), 1 - 2 * (x * x + z * z), 2 * (y * z - x * w)],
+            [2 * (x * z - y * w), 2 * (y * z + x * w), 1 - 2 * (x * x + y * y)]]
+
+
+def beyond_decimals(mol, k):
+    """does the stored geometry carry digits beyond k decimals (i.e. is it changed by rounding to k decimals)?"""
+    g = np.asarray(mol.geometry, dtype=float)
+    return not np.array_equal(g, np.around(g, k))
+
+
+def rand_molecule_hp(rng, nmax=6, trace=None):
+    """a valid (validated=True) Molecule whose stored geometry keeps more than 8 decimals, built through the public
+    routes that do so; everything is drawn from `rng` (scramble gets explicit shift/rotation/permutation), so a seed replays"""
+    from qcelemental.models import Molecule
+
+    for _attempt in range(6):
+        route = rng.choice(HP_ROUTES)
+        try:
+            if route == "noise":
+                m = rand_molecule(rng, nmax, ctor={"geometry_noise": rng.choice(HP_NOISE)}, hp=True)
+            elif route == "orient":
+                m = rand_molecule(rng, nmax, ctor={"geometry_noise": rng.choice(HP_NOISE), "orient": True}, hp=True)
+            else:
+                # align() maps the concern molecule back onto `ref`: its result keeps extra digits only if `ref` does
+                ref_hp = route == "align" or rng.random() < 0.5
+                ref = rand_molecule(rng, nmax, ctor={"geometry_noise": rng.choice(HP_NOISE)} if ref_hp else None, hp=ref_hp)
+                nat = len(ref.symbols)
+                perm = list(range(nat))
+                resort = route == "scramble" and rng.random() < 0.5
+                if resort:
+                    rng.shuffle(perm)
+                m, _ = ref.scramble(do_shift=[rng.uniform(-3, 3) for _ in range(3)] if rng.random() < 0.8 else False,
+                                    do_rotate=_rand_rotation(rng) if rng.random() < 0.8 else False,
+                                    do_resort=perm if resort else False, do_mirror=rng.random() < 0.15,
+                                    do_plot=False, do_test=False, verbose=0)
+                if route == "align":
+                    # atoms_map=True: no re-ordering search (that needs networkx); the result is built with geometry_noise=13
+                    m, _ = m.align(ref, atoms_map=True, mols_align=rng.random() < 0.5, verbose=0)
+        except Exception:  # noqa  (a helper refusing a random composition is not this property's subject)
+            continue
+        if isinstance(m, Molecule) and m.validated and beyond_decimals(m, 8):
+            if trace is not None:
+                trace.append(route)
+            return m
+    n = rng.randint(1, nmax)
+    if trace is not None:
+        trace.append("noise-fallback")
+    return Molecule(symbols=["He"] * n, geometry=[[3.0 * i + 0.123456789012345, rng.uniform(-2, 2), rng.uniform(-2, 2)] for i in range(n)], geometry_noise=13)
 
 
 def rand_basis(rng, natom):
@@ -1038,9 +1126,16 @@ def rand_atomic_result(rng, mol=None, allow_wfn=True):
     return AtomicResult(**kw)
 
 
-def rand_instance(rng, which=None):
+HP_SUFFIX = "+hp"
+HP_KINDS = ["Molecule", "AtomicInput", "Molecule", "AtomicResult", "OptimizationInput", "OptimizationResult"]
+
+
+def rand_instance(rng, which=None, trace=None):
+    """`which` = model name, optionally + '+hp': every molecule inside comes from rand_molecule_hp (routes -> `trace`)"""
     from qcelemental.models import AlignmentMill, AtomicInput, OptimizationInput, OptimizationResult
 
+    if which and which.endswith(HP_SUFFIX):
+        return rand_instance_hp(rng, which[: -len(HP_SUFFIX)], trace)
     which = which or rng.choice(["Molecule", "AtomicInput", "AtomicResult", "AtomicResult", "OptimizationInput", "OptimizationResult", "BasisSet", "AlignmentMill"])
     if which == "Molecule":
         return which, rand_molecule(rng)
@@ -1085,6 +1180,31 @@ def rand_instance(rng, which=None):
     return "AlignmentMill", AlignmentMill(**kw)
 
 
+def rand_instance_hp(rng, which, trace=None):
+    """the molecule-carrying models with molecules that keep more than 8 decimals in every molecule slot"""
+    from qcelemental.models import AtomicInput, OptimizationInput, OptimizationResult
+
+    if which == "Molecule":
+        return which, rand_molecule_hp(rng, trace=trace)
+    if which == "AtomicInput":
+        kw = dict(molecule=rand_molecule_hp(rng, trace=trace), driver=rng.choice(["energy", "gradient", "hessian", "properties"]), model={"method": "b3lyp", "basis": "6-31g"})
+        if rng.random() < 0.4:
+            kw["keywords"] = rand_json_extras(rng)
+        return which, AtomicInput(**kw)
+    if which == "AtomicResult":
+        return which, rand_atomic_result(rng, rand_molecule_hp(rng, trace=trace))
+    spec = {"driver": "gradient", "model": {"method": "hf", "basis": "sto-3g"}}
+    if which == "OptimizationInput":
+        return which, OptimizationInput(initial_molecule=rand_molecule_hp(rng, trace=trace), input_specification=spec, keywords={"program": "psi4", **rand_json_extras(rng, 1)})
+    if which == "OptimizationResult":
+        # initial, final and every trajectory step hold their own molecule
+        mols = [rand_molecule_hp(rng, 4, trace=trace) for _ in range(rng.randint(2, 4))]
+        traj = [rand_atomic_result(rng, m, allow_wfn=False) for m in mols[1:]]
+        return which, OptimizationResult(initial_molecule=mols[0], input_specification=spec, final_molecule=mols[-1] if rng.random() < 0.8 else None, trajectory=traj,
+                                         energies=[rfloat(rng) for _ in traj], success=True, provenance={"creator": "c10"})
+    raise ValueError(f"no high-precision family for {which}")
+
+
 def shape_sig(d, path=""):
     out = []
     if isinstance(d, np.ndarray):
@@ -1121,8 +1241,8 @@ def option_sets(rng, obj):
     return opts
 
 
-def check_instance(ctx, out: Outcome, name, obj, case_seed, files_dir=None, only=None):
-    """oracle on one model instance: 4 encodings x option sets"""
+def check_instance(ctx, out: Outcome, name, obj, case_seed, files_dir=None, only=None, family=None):
+    """oracle on one model instance: 4 encodings x option sets. `family`: generator family tag (evidence/distinctness only)"""
     from qcelemental.models import Molecule
     from qcelemental.util import deserialize, serialize
 
@@ -1140,7 +1260,10 @@ def check_instance(ctx, out: Outcome, name, obj, case_seed, files_dir=None, only
             out.count("encoding:" + enc)
             out.count("options:" + (",".join(sorted(opts)) or "none"))
             case = {"block": "model", "model": name, "seed": case_seed, "encoding": enc, "options": _opts_json(opts)}
-            if multi or opts:
+            if family:
+                out.count("family:" + family.split("|")[0])
+                out.nontrivial(("model", name, enc, ",".join(sorted(opts)), family, "|".join(sig)[:300]))
+            elif multi or opts:
                 out.nontrivial(("model", name, enc, ",".join(sorted(opts)), "|".join(sig)[:300]))
             try:
                 blob = obj.serialize(enc, **opts)
@@ -1270,6 +1393,38 @@ def _molecules(a, b):
         yield x.molecule, y.molecule, f"trajectory[{i}].molecule"
 
 
+def _all_molecules(obj):
+    from qcelemental.models import Molecule
+
+    if isinstance(obj, Molecule):
+        yield obj
+        return
+    for f in ("molecule", "initial_molecule", "final_molecule"):
+        x = getattr(obj, f, None)
+        if isinstance(x, Molecule):
+            yield x
+    for step in getattr(obj, "trajectory", None) or []:
+        yield step.molecule
+
+
+def hp_account(out: Outcome, obj, trace):
+    """evidence that the high-precision family is what it claims (independent of how it was generated)"""
+    out.count("hp:instances")
+    for r in trace:
+        out.count("hp-route:" + r)
+    for m in _all_molecules(obj):
+        out.count("hp:molecules")
+        if beyond_decimals(m, 8):
+            out.count("hp:molecules-geometry-beyond-8-decimals")
+        if beyond_decimals(m, 13):
+            out.count("hp:molecules-geometry-beyond-13-decimals")
+        g = np.abs(np.asarray(m.geometry, dtype=float))
+        if ((g > 0) & (g < 5e-9)).any():
+            out.count("hp:molecules-with-coordinate-below-5e-9")
+        if float(m.molecular_charge) != round(float(m.molecular_charge), 4):
+            out.count("hp:molecules-charge-beyond-4-decimals")
+
+
 def check_files(ctx, out: Outcome, name, obj, case_seed, d):
     """suffix choice: the reader picked for a suffix reads what the writer picked for that suffix wrote"""
     from qcelemental.models import Molecule
@@ -1340,6 +1495,26 @@ def instances_block(ctx, out: Outcome):
             ctx.rng = saved
         if len(out.samples) < 6 and i % 11 == 0:
             out.sample({"model": name, "arrays": shape_sig(obj.dict())[:5]})
+    # high-precision molecules (geometry beyond the default 8 decimals), alone and in every molecule slot of the other
+    # models: drawn AFTER the block above so that its instances are unchanged for a given VERIF_SEED
+    n_hp = ctx.scale(300, 2400)
+    for i in range(n_hp):
+        seed = ctx.rng.getrandbits(48)
+        sub = random.Random(seed)
+        which = HP_KINDS[i % len(HP_KINDS)] + HP_SUFFIX
+        saved = ctx.rng
+        ctx.rng = sub
+        try:
+            with warnings.catch_warnings():
+                warnings.simplefilter("ignore")
+                trace = []
+                name, obj = rand_instance(sub, which, trace)
+                hp_account(out, obj, trace)
+                check_instance(ctx, out, name, obj, {"seed": seed, "which": which}, files_dir=d, family="hp-geometry|" + ",".join(trace))
+        finally:
+            ctx.rng = saved
+        if i < 2:
+            out.sample({"model": name, "family": "hp-geometry", "routes": trace, "geometry[0]": [repr(float(x)) for x in next(_all_molecules(obj)).geometry[0]]}, limit=8)
 
 
 # ----------------------------------------------------------------------------------------------------------------
@@ -1416,6 +1591,13 @@ def run(ctx: Ctx) -> Outcome:
         instances_block(ctx, out)
         tables_block(ctx, out)
     out.exhaustive = False
+    dist = out.distribution
+    out.notes.append(
+        "high-precision molecule family: every instance holds molecules whose stored geometry is changed by rounding to 8 decimals "
+        f"({dist.get('hp:molecules-geometry-beyond-8-decimals', 0)} of {dist.get('hp:molecules', 0)} molecules in {dist.get('hp:instances', 0)} instances this run; "
+        f"{dist.get('hp:molecules-geometry-beyond-13-decimals', 0)} also beyond 13 decimals), so a parser that re-applies the construction-time clean-up "
+        "to an already validated payload shows up as a field difference and a different second payload (all default-constructed molecules are fixed points of that clean-up)"
+    )
     out.notes.append("dtype x layout grid is systematic; shapes, bytes, nesting and model instances are sampled from VERIF_SEED; dispatch tables are exhaustive")
     out.notes.append("container widths compared differentially up to 5000 entries (array16/map16 heads); the 32-bit container head at 65536 entries is covered by the theorems only; str/bin/array data are compared up to 65536 bytes")
     out.notes.append("json-ext text through parse_raw's str->json default (and parse_file('.json')) is rejected by the implementation exactly as the model's table says; not demanded by the oracle (see ASSUMPTIONS)")
@@ -1440,9 +1622,11 @@ def replay(ctx: Ctx, case) -> Outcome:
             seed = case["seed"]["seed"]
             sub = random.Random(seed)
             ctx.rng = sub
-            name, obj = rand_instance(sub, case["seed"].get("which"))
+            which = case["seed"].get("which")
+            trace = []
+            name, obj = rand_instance(sub, which, trace)
             d = tempfile.mkdtemp(prefix="c10-", dir=str(ctx.work))
-            check_instance(ctx, out, name, obj, case["seed"], files_dir=d)
+            check_instance(ctx, out, name, obj, case["seed"], files_dir=d, family=("hp-geometry|" + ",".join(trace)) if trace else None)
         else:
             tables_block(ctx, out)
     return out
